@@ -177,6 +177,7 @@ type replayFile struct {
 	Msg      string            `json:"msg"`
 	Where    string            `json:"where"`
 	Native   bool              `json:"native"`
+	Reverse  bool              `json:"reverse_maps,omitempty"`
 	Inputs   map[string]uint64 `json:"inputs"`
 }
 
@@ -420,7 +421,7 @@ func cmdCheck(args []string) int {
 		}
 		seenLabel[key] = true
 		rf := replayFile{Property: prop, Harness: hv.h.Name, Pkg: cfg.Pkg, HDir: cfg.HDir, Tier: tier, Label: hv.v.Label,
-			Msg: hv.v.Msg, Where: hv.v.Where, Native: hv.h.Native, Inputs: hv.v.Inputs}
+			Msg: hv.v.Msg, Where: hv.v.Where, Native: hv.h.Native, Reverse: hv.h.Reverse, Inputs: hv.v.Inputs}
 		path := filepath.Join(*verif, "replay", fmt.Sprintf("%s_%s_%d.json", prop, hv.h.Name, i))
 		b, _ := json.MarshalIndent(rf, "", " ")
 		os.WriteFile(path, b, 0o644)
@@ -615,7 +616,7 @@ func concreteReplay(p *exec.Program, rf replayFile) bool {
 	if fn == nil {
 		return false
 	}
-	end, label := exec.RunConcrete(p, fn, rf.Inputs, rf.Tier)
+	end, label := exec.RunConcrete(p, fn, rf.Inputs, rf.Tier, rf.Reverse)
 	if rf.Label == "no-panic" {
 		return end == "violation" && label == "no-panic"
 	}
